@@ -127,12 +127,15 @@ impl Check for C04 {
         "c04"
     }
     fn rule(&self) -> String {
-        "cases = the C01 value-tree sequences; per (protocol x buffer kind): (1) size from a fresh length-protocol instance vs bytes a fresh writer produces, value by value; (2) size taken from the SAME protocol instance that then writes the value, value k+1 sized after value k was written; distinct = structural hashes of sequences with a non-trivial value. The generated-type part of C04 (Message::size vs Message::encode) runs in the generated-code checks when registered.".into()
+        "cases = the C01 value-tree sequences; per (protocol x buffer kind): (1) size from a fresh length-protocol instance vs bytes a fresh writer produces, value by value; (2) message envelopes: message_begin_len + message_end_len vs bytes written, for names of 0..4097 bytes x sequence ids at every power of two (both signs) x 4 message types; (3) size taken from the SAME protocol instance that then writes the value, value k+1 sized after value k was written; distinct = structural hashes of sequences with a non-trivial value. The generated-type part of C04 (Message::size vs Message::encode) runs in the generated-code checks when registered.".into()
     }
     fn ncases(&self, ctx: &Ctx) -> u64 {
         2 * directed_values().len() as u64 + ctx.scale(12_000, 1_000_000)
     }
     fn run_case(&self, ctx: &Ctx, idx: u64, frag: &mut Frag) {
+        if idx == 0 {
+            crate::c03::envelope_sizes(frag);
+        }
         let vals = gen_seq(ctx, idx, 0xC04);
         if frag.samples.is_empty() && idx % 89 == 5 {
             frag.sample(json!({"idx": idx, "values": vals.iter().map(|v| v.render(160)).collect::<Vec<_>>()}));
@@ -140,6 +143,10 @@ impl Check for C04 {
         check_seq(&vals, frag, ctx.seed ^ idx, idx);
     }
     fn replay(&self, _ctx: &Ctx, case: &Value, frag: &mut Frag) -> bool {
+        if case.get("envelope").is_some() {
+            crate::c03::envelope_sizes(frag);
+            return true;
+        }
         match vals_from_json(&case["vals"]) {
             Some(vals) => {
                 check_seq(&vals, frag, case["choice"].as_u64().unwrap_or(0), case["idx"].as_u64().unwrap_or(0));
@@ -163,6 +170,9 @@ impl Check for C04 {
             }
             for shape in ["neg_or_desc_id", "bool_field", "container_14", "container_15", "container_16", "str_127", "str_128", "long_form_header"] {
                 r.floor(&format!("{}.{}", n, shape), 1);
+            }
+            if wp != WP::BinaryLe {
+                r.floor(&format!("{}.envelope_len", n), 500);
             }
             r.floor(&format!("{}.fresh_pairs", n), 1000);
             r.floor(&format!("{}.same_instance_pairs", n), 1000);
